@@ -50,6 +50,8 @@ func runC09(c *Ctx) {
 	L.Floor("match-mode", 1, "one function")
 	c.checkSetters("setter-records-arguments", "align", "*pwaligner")
 	c.L.Floor("setter-records-arguments", 2, "4 parameters of the aligner setters (floor = half)")
+	c.checkMatrixScans("matrix-scan-full", "fillMatrix_SW", "backTrack")
+	c.L.Floor("matrix-scan-full", 2, "fill loops and the last-row scan (floor = half)")
 }
 
 func isUint8(t types.Type) bool {
